@@ -223,6 +223,33 @@ def zero_leaves(tr, gi=1, out=None):
     return out
 
 
+def slice_count_cases(g, n):
+    """slice assignments whose item count differs from the slice length: the items are written one by one (a surplus
+    item lands beyond the slice, possibly beyond the length: index error), then the count check fails; the value must
+    be the one with exactly the written items, padding included"""
+    r = g.rng
+    out = []
+    for _ in range(n):
+        e = r.choice(['u64', 'u16', 'u8', 'u128', 'bool', ['cont', 'u8', 'u16'], ['Bv', 32]])
+        per = 32 // UINT_W.get(e, 1) if is_basic(e) else 1
+        ln = per * r.choice([0, 1, 2]) + r.choice([1, 2, 3, per]) 
+        if r.random() < 0.5:
+            t = ['list', e, ln + r.choice([0, 1, 3, 40])]
+        else:
+            t = ['vec', e, ln]
+        v = ['s'] + [g.val(e, 2) for _ in range(ln)]
+        ops = []
+        for _ in range(r.choice([1, 2, 3])):
+            a = r.randrange(ln)
+            k_ = r.randint(0, ln - a)
+            cnt = max(0, k_ + r.choice([1, 1, 2, -1, 0]))
+            ops.append(['setsx', a, k_, ['s'] + [g.max_val(e) if r.random() < 0.5 else g.val(e, 2) for _ in range(cnt)]])
+            if r.random() < 0.4 and t[0] == 'list':
+                ops.append(r.choice([['pop'], ['app', g.val(e, 2)]]))
+        out.append(show(['hist', t, v] + ops))
+    return out
+
+
 def boundary_hist_cases(g, n):
     """histories that start right AFTER a chunk / subtree boundary with a non-zero last element (lengths
     256k+1, 512k+1 bits; per-chunk multiples + 1; 2^k + 1 composite elements) and pop back across it"""
@@ -288,6 +315,7 @@ class C01(ValProp):
             out.append(show(['zh', d]))
         out += chunk_exact_cases(g, n // 6)
         out += boundary_hist_cases(g, n // 6)
+        out += slice_count_cases(g, n // 8)
         r = g.rng
         for _ in range(n // 8):
             # huge limits around powers of two (chunk counts 2**k - 1, 2**k, 2**k + 1, 2**k + small), small values
@@ -450,6 +478,11 @@ class C03(ValProp):
                 w = g.val(t, 40)
                 v = w if r.random() < 0.5 else v
             out.append(show(['val', t, v]))
+        # nested mutations between encodings: every held view is encoded after every step (store histories)
+        for _ in range(self.n(tier) // 8):
+            t = nested_ty(g, r.choice([1, 2, 2]))
+            v = g.val(t, 8)
+            out.append(show(['store', t, v] + StoreGen(g, t, v).history(r.choice([6, 15]))))
         # fixed-length bit / byte / packed sequences of 3, 5, 6, 7 chunks whose LAST chunk(s) hold only zeros (and the
         # mirror image: zeros first), bare and nested
         for _ in range(self.n(tier) // 6):
@@ -488,6 +521,9 @@ class C03(ValProp):
 
     def compare(self, case, py, mo, stats):
         out = []
+        if case[0] == 'store':
+            bump(stats, 'kinds', 'store:' + kind(case[1]))
+            return StoreProp.compare_store(self, case, py, mo, stats, 'views')
         self.note_tv(stats, case[1], case[2])
         if py.get('p.ctor') != 'ok':
             return [F('prop', 'ctor', py.get('p.ctor'), 'valid value must be constructible')]
@@ -595,8 +631,9 @@ class C04(HistProp):
         for _ in range(self.n(tier) // 3):
             t = nested_ty(g, g.rng.choice([1, 2, 2]))
             v = g.val(t, 12)
-            out.append(show(['store', t, v] + StoreGen(g, t, v).history(g.rng.choice([6, 15, 30]))))
+            out.append(show(['store', t, v] + StoreGen(g, t, v).history(g.rng.choice([6, 15, 30]), 0.0, 0.08)))
         out += boundary_hist_cases(g, self.n(tier) // 2)
+        out += slice_count_cases(g, self.n(tier) // 5)
         # histories on DEFAULT-constructed values (their backing shares one child object between the two sides of its
         # pairs), nothing hashed or read before the end
         r = g.rng
@@ -848,6 +885,10 @@ class DecProp(Prop):
             out.append(show(['dec', t, 'x', 'x', 'x']))
             out.append(show(['dec', ['union', t, 'u16'], 'x', 'x00', 'x']))
             out.append(show(['dec', ['cont', 'u8', ['union', 'none', t]], 'x', 'x070500000001', 'x']))
+        # the same raw bytes decoded first as integers / byte vectors, then (below) in boolean positions
+        for t, hx in ((['list', 'u8', 8], '020380ff'), (['Bv', 1], '02'), (['Bv', 1], 'ff'), ('u8', '03'), (['vec', 'u8', 2], '8002'),
+                      (['cont', 'u8', ['Bv', 1]], '0203')):
+            out.append(show(['dec', t, 'x', 'x' + hx, 'x']))
         # boolean sequences with a byte that is neither 00 nor 01, at every chunk position, bare and nested
         for n_ in (1, 3, 32, 33, 40, 64, 65):
             for t in (['vec', 'bool', n_], ['list', 'bool', n_], ['cont', 'u8', ['vec', 'bool', n_]], ['vec', ['vec', 'bool', n_], 2]):
@@ -992,6 +1033,13 @@ class C10(DecProp):
                 out.append(F('corr', 'python rejects, model accepts', 'err', mo.get('i.dec')))
         if mo.get('i.dec') != 'err' and mo.get('s.bytes') != body:
             out.append(F('model', 'model accepts a non-canonical encoding', mo.get('s.bytes'), body))
+        # the decode_bytes spelling (the property excepts only the bare integer / boolean types' lenient helper)
+        db = py.get('p.decb')
+        if db not in (None, 'err') and not is_basic(case[1]) and mo.get('i.dec') == 'err':
+            q = model_query(show(['val', case[1], parse(db)])) if db != 'err' else {}
+            if q.get('s.bytes') != body:
+                out.append(F('prop', 'decode_bytes accepted a string that is not the SSZ encoding of the value it returned', db,
+                             'canonical encoding: %s' % q.get('s.bytes')))
         return out
 
 
@@ -1083,6 +1131,12 @@ class C12(Prop):
             out.append(show(['type', t]))
             if g.rng.random() < 0.3:
                 out.append(show(['val', t, g.zero(t)]))
+        for _ in range(self.n(tier) // 12):
+            nb = 16 * g.rng.randint(33, 90)
+            bvt = ['bv', nb]
+            wrapt = g.rng.choice([bvt, ['cont', 'u8', bvt], ['vec', bvt, 2], ['union', bvt, 'u8']])
+            out.append(show(['type', wrapt]))
+            out.append(show(['type', bvt]))
         # the default of T requested AFTER sequences of T holding non-default data were serialised / iterated / exported
         r = g.rng
         for _ in range(self.n(tier) // 10):
@@ -1408,6 +1462,8 @@ class C15(ValProp):
                 out.append(F('prop', 'len()', py.get('p.len'), str(val_size(case[2]))))
         if py.get('p.eq') != '111':
             out.append(F('prop', '==, !=, hash of equal values', py.get('p.eq'), '111'))
+        if 'p.eqfresh' in py and set(py['p.eqfresh']) - {'1'}:
+            out.append(F('prop', '==, !=, hash(), set membership against an equal value whose type expression was evaluated separately', py['p.eqfresh'], '1111'))
         if 'p.seqmixin' in py and set(py['p.seqmixin']) - {'1'}:
             out.append(F('prop', 'reversed() / in / index() / count() disagree with indexing', py['p.seqmixin'], 'all 1'))
         if 'p.slices' in py and set(py['p.slices']) - {'1'}:
@@ -1610,6 +1666,7 @@ class C18(Prop):
             cmds.append(['graft', b])
             cmds.append(['diff', base])
             cmds.append(['leaves'])
+            cmds.append(['vleaves'])
             out.append(show(['tree', base] + cmds))
             if r.random() < 0.5:
                 # same root, different shape: zero summaries against (partially) expanded zero subtrees
@@ -1684,6 +1741,11 @@ class C18(Prop):
                 if mo.get(p + 'graft') != mo.get(p + 'target'):
                     out.append(F('model', 'graft law', mo.get(p + 'graft'), mo.get(p + 'target')))
                 continue
+            if c[0] == 'vleaves':
+                a, b = py.get(p + 'vleaves'), mo.get(p + 'vleaves')
+                if a != 'skip' and a != b:
+                    out.append(F('prop', 'leaf iteration over a lazily served tree', a, b))
+                continue
             for key in ('hist', 'diff', 'graft', 'leaves'):
                 if c[0] == key:
                     a, b = py.get(p + key), mo.get(p + key)
@@ -1726,6 +1788,26 @@ class C08(Prop):
             bad = self.bad_key(g, t)
             if bad is not None:
                 out.append(show(['path', t, bad]))
+        # a list index below the limit but at / beyond the value's current length, with further steps behind it: the static
+        # index is defined; the value-dependent one must be refused or agree (never a prefix's index)
+        for _ in range(self.n(tier) // 10):
+            e = r.choice([['cont', 'u8', 'u64'], ['vec', 'u16', 20], ['list', 'u8', 40], ['cont', ['list', 'u16', 4], 'u8']])
+            lim = r.choice([4, 8, 9, 33])
+            ln = r.randint(0, lim - 1)
+            t = r.choice([['list', e, lim], ['cont', 'u8', ['list', e, lim]], ['vec', ['list', e, lim], 2]])
+            inner_v = ['s'] + [g.val(e, 3) for _ in range(ln)]
+            v = inner_v if t[0] == 'list' else (['s', '1', inner_v] if t[0] == 'cont' else ['s', inner_v, inner_v])
+            pre = [] if t[0] == 'list' else [1]
+            idx = r.randint(ln, lim - 1)
+            tail = g.keys(e, None, maxlen=2)
+            out.append(show(['pathv', t, v] + pre + [idx] + tail))
+        # containers whose fields carry the names of view methods
+        for _ in range(self.n(tier) // 12):
+            nf = r.randint(1, 6)
+            t = ['cont'] + [g.ty(1) for _ in range(nf)]
+            v = g.val(t, 4)
+            k0 = r.randrange(nf)
+            out.append(show(['pathm', t, v, k0] + (g.keys(t[1 + k0], v[1 + k0], maxlen=2) if not is_basic(t[1 + k0]) else [])))
         # huge limits and keys beyond 2**53 (where floating point arithmetic on the key would round)
         for _ in range(self.n(tier) // 10):
             e = r.choice(['bool', 'u8', 'u16', 'u32', 'u64', 'u128', 'u256', ['cont', 'u8', 'u64'], ['Bv', 48]])
@@ -1788,7 +1870,7 @@ class C08(Prop):
     def compare(self, case, py, mo, stats):
         out = []
         bump(stats, 'kinds', kind(case[1]))
-        keys = case[3:] if case[0] == 'pathv' else case[2:]
+        keys = case[3:] if case[0] in ('pathv', 'pathm') else case[2:]
         bump(stats, 'sizes', 'keys=%d' % len(keys))
         sg, ig = mo['s.g'], mo['i.g']
         if sg == 'err':
@@ -1801,13 +1883,15 @@ class C08(Prop):
             return out
         if py.get('p.g') != sg:
             out.append(F('prop', 'static gindex', py.get('p.g'), sg))
-        if py.get('p.pre') != mo.get('i.pre'):
+        if case[0] != 'pathm' and py.get('p.pre') != mo.get('i.pre'):
             out.append(F('prop', 'gindices of the kept prefix paths after they were extended again', py.get('p.pre'), mo.get('i.pre')))
         if 'p.concat' in py and set(py['p.concat']) - {'1'}:
             out.append(F('prop', 'path concatenation', py['p.concat'], 'all 1'))
         if ig != sg:
             out.append(F('model', 'i.g~s.g', ig, sg))
-        if case[0] == 'pathv':
+        if case[0] in ('pathv', 'pathm'):
+            if case[0] == 'pathm' and (py.get('p.navv') or '').startswith('notaview'):
+                out.append(F('prop', 'view navigation returned something else than the addressed sub-value', py.get('p.navv'), mo.get('i.node')))
             if py.get('p.node') != mo.get('i.node'):
                 out.append(F('prop' if mo.get('i.node') != 'err' else 'corr', 'node at the gindex', py.get('p.node'), mo.get('i.node')))
             if py.get('p.dyn') not in ('err', sg):
@@ -1853,6 +1937,8 @@ class StoreProp(Prop):
                 # view of the union is one more link in the chain
                 u = ['union'] + (['none'] if r.random() < 0.5 else []) + [r.choice([['list', 'u16', 5], ['cont', 'u8', ['list', 'u8', 3]], ['bl', 12], ['vec', ['cont', 'u8'], 2]])
                                                                          for _ in range(r.randint(1, 2))]
+                if r.random() < 0.5:
+                    u = u + [u[-1]]       # the same composite type at two selectors; the later one is selected
                 sel = len(u) - 2
                 uv = ['u', sel, g.val(u[1 + sel], 4)]
                 t, v = r.choice([(['cont', 'u8', u, 'u16'], ['s', '1', uv, '2']), (['list', u, 3], ['s', uv, uv]),
@@ -1992,6 +2078,8 @@ class C19(HistProp):
         if case[0] == 'virt':
             if py.get('p.skip') or py.get('p.ctor') == 'err':
                 return out
+            if py.get('p.vcost') not in (None, 'ok:0/1'):
+                out.append(F('prop', 'a view re-created over an already known lazily loaded backing: hash operations / same backing object', py.get('p.vcost'), 'ok:0/1'))
             for i, op in enumerate(case[3:]):
                 bump(stats, 'ops', 'virt:' + op[0])
                 vs = py.get('%d.vshare' % i)
@@ -2086,7 +2174,7 @@ class C17(Prop):
                 hist = [['app', g.val(t[1], 4) if kind(t) == 'list' else '1']] + hist
             for o in hist:
                 if r.random() < 0.4:
-                    ops.append(r.choice([['read'], ['len'], ['bytes'], ['root'], ['elem', r.randint(0, 6)], ['elem', r.randint(0, 40)], ['vbl']]))
+                    ops.append(r.choice([['read'], ['len'], ['bytes'], ['root'], ['elem', r.randint(0, 6)], ['elem', r.randint(0, 40)], ['vbl'], ['eqself']]))
                 if r.random() < 0.25 and kind(t) in ('list', 'vec', 'bl', 'bv'):
                     ops.append(['slice', r.randint(0, 40), r.randint(0, 40)])
                 ops.append(o)
@@ -2157,7 +2245,7 @@ class C17(Prop):
             if t[0] == 'cont' and len(t) - 1 == len(fs):
                 cand += [(1 << d) | i for i in range(len(fs))] + [2, 3, 4, 5, 6, 7]
             pos = ['pos'] + [r.choice(cand) if cand else r.randint(2, 15) for _ in range(r.choice([1, 1, 2]))]
-            out.append(show(['partial', t, v, pos, ['vbl'], ['bytes'], ['root'], ['vbl']]))
+            out.append(show(['partial', t, v, pos, ['vbl'], ['eqself'], ['bytes'], ['root'], ['vbl']]))
         # mutations through child views of a partial tree
         for _ in range(self.n(tier) // 5):
             t = nested_ty(g, r.choice([1, 2, 2]))
@@ -2326,7 +2414,9 @@ class C20(Prop):
             cmds = []
             for _ in range(r.choice([2, 4, 8])):
                 gi = r.choice([0, 1, r.randint(1, maxg), r.randint(1, maxg), r.randint(1, 1 << 10)])
-                if r.random() < 0.5:
+                if r.random() < 0.15:
+                    cmds.append(['vsumm', max(gi, 1), max(gi, 1), max(gi, 1) * 2, max(gi, 1) * 2 + 1, max(gi >> 1, 1), 2, 3])
+                elif r.random() < 0.5:
                     cmds.append(['vget', gi])
                 else:
                     cmds.append(['vset', gi, r.choice([0, 1]), g.tree(r.choice([0, 0, 1, 2]), 0.5), gi, max(gi >> 1, 1), gi * 2, r.randint(1, maxg)])
@@ -2347,12 +2437,14 @@ class C20(Prop):
             for i, c in enumerate(case[2:]):
                 p = '%d.' % i
                 bump(stats, 'ops', c[0])
-                for key in ('vget', 'vset', 'vprobes', 'vseq'):
+                for key in ('vget', 'vset', 'vprobes', 'vseq', 'vsumm', 'vsprobes'):
                     a, b = py.get(p + key), mo.get(p + key)
                     if a is None and b is None:
                         continue
                     if key == 'vprobes' and mo.get(p + 'vset') == 'err':
                         continue
+                    if a == 'skip' or (key == 'vsprobes' and py.get(p + 'vsumm') == 'skip'):
+                        continue     # a root that is both a leaf and a pair cannot be served by a root-keyed source
                     a = (a or '').replace('err:nav', 'err')
                     if a.startswith('import-err'):
                         out.append(F('prop', 'a virtual tree cannot be created', a, ''))
